@@ -309,6 +309,18 @@ pub fn per_name(ev: Ev) -> Vec<String> {
         for closer in ["", "]", "⌋", "⌉", "))", ",", ")("] {
             out.push(format!("{}({}{}", name, good_args, closer));
         }
+        // the name followed by one stray token instead of its opening bracket, then an argument and a closer
+        for stray in ["-", "+", ",", "@", "!", "*", "/", "^", ".", "2", "((", ")", "⌊", "°"] {
+            out.push(format!("{}{}2)", name, stray));
+            out.push(format!("{}{}2.5)", name, stray));
+            out.push(format!("{}{}(2)", name, stray));
+            out.push(format!("1+{}{}{})*2", name, stray, good_args));
+        }
+        // the empty call in the contexts of a value (well-formed for the aggregates that accept no argument)
+        let empty = format!("{}()", name);
+        for ctx in ["{}(3)", "{}3", "2{}", "{}abs(2)", "{}^2", "-{}", "2*{}", "{}+1", "({})", "1+{}(3)", "2{}(3)", "{}{}", "pow({},2)"] {
+            out.push(ctx.replace("{}", &empty));
+        }
         out.push(name.to_string());
         out.push(format!("{}2", name));
         out.push(format!("{} (2)", name));
